@@ -156,7 +156,7 @@ def check_case(case) -> Outcome:
         if kind in ("continuous", "discrete"):
             finite = [float(l) for l in non_nan if l != INF]
             train_vals = [float(v) for v in sample.X[raw].tolist() if not is_missing(v)]
-            pts = set(finite) | {min(train_vals), max(train_vals), 0.0, 1e308, -1e308}
+            pts = set(finite) | {0.0, 1e308, -1e308} | ({min(train_vals), max(train_vals)} if train_vals else set())
             for b in finite:
                 pts.add(float(np.nextafter(b, INF)))
                 pts.add(float(np.nextafter(b, -INF)))
